@@ -55,7 +55,8 @@ pub fn jobs(ctx: &Ctx) -> Vec<RJob> {
                             1 => spec.fit_width = Some(p),
                             2 => spec.fit_height = Some(p),
                             _ => {
-                                let other = p + rng.below(200) as u32;
+                                // the two requests coincide a quarter of the time (w == h), otherwise the other one is larger
+                                let other = if rng.chance(1, 4) { p } else { p + rng.below(200) as u32 };
                                 if rng.chance(1, 2) {
                                     spec.fit_width = Some(p);
                                     spec.fit_height = Some(other);
